@@ -137,4 +137,202 @@ def readFetched (recycle : Bool) (h : ElemHeap) (a : Nat) (between : List HOp) (
   let c := ((h.run recycle between).cell a)
   if c.exp < now then .miss else .hit c.val c.exp
 
+/-! ## `RangeDo` on the shard map (pkg/concurrent_map)
+
+`Map.RangeDo` visits every shard; per shard the callback sees each entry and
+answers keep / set a new value / delete. The callbacks of the harness are
+first-order: entries whose `key % m = r` get `act`, the others are kept.
+`Shard.rangeDo` is the shard method as one critical section. Whether the code
+does run it as one critical section is a regenerated fact; `Shard.rangeDoIn`
+also describes the other possibility (decisions collected from the content seen,
+lock released, decisions applied later with plain map writes), with the
+operations other goroutines get in between as the function `between`. -/
+
+inductive Act where
+  | setAdd (d : Nat)     -- setV with newV = v + d
+  | del                  -- delV
+  | delOdd               -- delV when the value is odd, else keep (a sweep that looks at the value)
+  deriving DecidableEq, Repr
+
+structure RangeF where
+  m : Nat
+  r : Nat
+  act : Act
+  deriving DecidableEq, Repr
+
+/-- the callback's answer for one entry: `none` = keep, `some none` = delete, `some (some e')` = set -/
+def RangeF.answer (f : RangeF) (e : Entry) : Option (Option Entry) :=
+  if e.key % f.m == f.r then
+    match f.act with
+    | .setAdd d => some (some { e with val := e.val + d })
+    | .del => some none
+    | .delOdd => if e.val % 2 == 1 then some none else none
+  else none
+
+def Shard.rangeDo (f : RangeF) (s : Shard) : Shard :=
+  s.filterMap (fun e => match f.answer e with | none => some e | some r => r)
+
+/-- the modifications a pass over the shard asks for -/
+def Shard.collect (f : RangeF) (s : Shard) : List (Nat × Option Entry) :=
+  s.filterMap (fun e => (f.answer e).map (fun r => (e.key, r)))
+
+/-- applying collected modifications later: plain `m.m[k] = v` / `delete(m.m, k)` (no eviction) -/
+def Shard.applyMods (s : Shard) : List (Nat × Option Entry) → Shard
+  | [] => s
+  | (k, some e) :: ms => Shard.applyMods (e :: s.remove k) ms
+  | (k, none) :: ms => Shard.applyMods (s.remove k) ms
+
+def Shard.rangeDoIn (oneSection : Bool) (f : RangeF) (s : Shard) (between : Shard → Shard) : Shard :=
+  if oneSection then between (s.rangeDo f) else (between s).applyMods (s.collect f)
+
+/-- operations of `concurrent_map.Map` (no expiry at this level: entries carry `exp = 0`) -/
+inductive MOp where
+  | base (op : Op)                       -- set (= store at time 0), get, flush, len
+  | del (key : Nat)
+  | range (f : RangeF)                   -- returns the number of entries the callback saw
+  | tas (key : Nat) (act : Act)          -- TestAndSet with the same kind of answer (a missing key: `setAdd d` stores d)
+  deriving Repr
+
+def Cache.mstep (sumOf : Nat → Nat) (c : Cache) : MOp → Cache × Ret
+  | .base op => c.step sumOf op
+  | .del key => (modifyShard c (shardOf sumOf key) (·.remove key), .none)
+  | .range f => ({ c with shards := fun i => (c.shards i).rangeDo f }, .len c.len)
+  | .tas key act =>
+    let i := shardOf sumOf key
+    match (c.shards i).lookup key with
+    | some e =>
+      match RangeF.answer ⟨1, 0, act⟩ e with
+      | none => (c, .none)
+      | some none => (modifyShard c i (·.remove key), .none)
+      | some (some e') => (modifyShard c i (fun s => e' :: s.remove key), .none)
+    | none => (c, .none)      -- the harness's TestAndSet callbacks leave a missing key alone
+
+def Cache.mrun (sumOf : Nat → Nat) (c : Cache) : List MOp → Cache × List Ret
+  | [] => (c, [])
+  | op :: ops =>
+    let (c1, r) := c.mstep sumOf op
+    let (c2, rs) := Cache.mrun sumOf c1 ops
+    (c2, r :: rs)
+
+/-- the specification at this level: a pass (or TestAndSet) replaces what is stored under a key by the callback's answer
+for exactly that stored value -/
+def applyAnswer (f : RangeF) : Option Entry → Option Entry
+  | some e => (match f.answer e with | none => some e | some r => r)
+  | none => none
+
+def mspecStep (spec : Nat → Option Entry) : MOp → (Nat → Option Entry)
+  | .base op => specStep spec op
+  | .del key => fun k => if k = key then none else spec k
+  | .range f => fun k => applyAnswer f (spec k)
+  | .tas key act => fun k => if k = key then applyAnswer ⟨1, 0, act⟩ (spec k) else spec k
+
+def mspecRun (spec : Nat → Option Entry) : List MOp → (Nat → Option Entry)
+  | [] => spec
+  | op :: ops => mspecRun (mspecStep spec op) ops
+
+/-! ## pkg/lru.LRU and pkg/concurrent_lru
+
+An LRU is the list of its entries, oldest first. `ConcurrentLRU` is an LRU
+behind one mutex (every method one critical section: regenerated fact), a
+`ShardedLRU` is `n` of them selected by `key.Sum() % n`. `stores` says whether
+the update branch of `Add` writes the value before anything else can happen
+(regenerated fact); `stores = false` describes an `Add` that returns early when
+the key is already the newest entry. -/
+
+structure KV where
+  key : Nat
+  val : Nat
+  deriving DecidableEq, Repr
+
+abbrev Lru := List KV
+
+def Lru.lookup (q : Lru) (k : Nat) : Option KV := q.find? (·.key == k)
+def Lru.without (q : Lru) (k : Nat) : Lru := q.filter (·.key != k)
+
+/-- `LRU.Add`: new state and what `onEvict` was called with, in order -/
+def Lru.add (stores : Bool) (max : Nat) (q : Lru) (k v : Nat) : Lru × List KV :=
+  match q.lookup k with
+  | some e =>
+    if !stores && q.getLast? == some e then (q, [])
+    else (q.without k ++ [⟨k, v⟩], [])
+  | none =>
+    let o := q.length + 1 - max
+    (q.drop o ++ [⟨k, v⟩], q.take o)
+
+inductive LOp where
+  | add (k v : Nat)
+  | get (k : Nat)
+  | del (k : Nat)
+  | pop                      -- `PopOldest` (plain LRU only: shard 0)
+  | clean (m r : Nat)        -- `Clean` with the predicate `(key + value) % m = r`
+  | flush
+  | len
+  deriving Repr
+
+inductive LRet where
+  | evicted (l : List KV)    -- what `onEvict` got (for `pop`: what was returned)
+  | hit (v : Nat)
+  | miss
+  | len (n : Nat)
+  | none
+  deriving DecidableEq, Repr
+
+def cleanPred (m r : Nat) (e : KV) : Bool := (e.key + e.val) % m == r
+
+structure SLru where
+  n : Nat                    -- number of shards
+  max : Nat                  -- maximum of every shard
+  shards : Nat → Lru
+
+def SLru.new (n max : Nat) : SLru := ⟨n, max, fun _ => []⟩
+
+def SLru.shardOf (sumOf : Nat → Nat) (c : SLru) (k : Nat) : Nat := sumOf k % c.n
+
+def SLru.modify (c : SLru) (i : Nat) (q : Lru) : SLru :=
+  { c with shards := fun j => if j = i then q else c.shards j }
+
+def SLru.len (c : SLru) : Nat := ((List.range c.n).map (fun i => (c.shards i).length)).sum
+
+def SLru.step (stores : Bool) (sumOf : Nat → Nat) (c : SLru) : LOp → SLru × LRet
+  | .add k v =>
+    let i := c.shardOf sumOf k
+    let r := (c.shards i).add stores c.max k v
+    (c.modify i r.1, .evicted r.2)
+  | .get k =>
+    let i := c.shardOf sumOf k
+    match (c.shards i).lookup k with
+    | some e => (c.modify i ((c.shards i).without k ++ [e]), .hit e.val)
+    | none => (c, .miss)
+  | .del k =>
+    let i := c.shardOf sumOf k
+    match (c.shards i).lookup k with
+    | some e => (c.modify i ((c.shards i).without k), .evicted [e])
+    | none => (c, .evicted [])
+  | .pop =>
+    match c.shards 0 with
+    | e :: rest => (c.modify 0 rest, .evicted [e])
+    | [] => (c, .evicted [])
+  | .clean m r =>
+    ({ c with shards := fun i => (c.shards i).filter (fun e => !cleanPred m r e) },
+     .evicted (((List.range c.n).map (fun i => (c.shards i).filter (cleanPred m r))).flatten))
+  | .flush => ({ c with shards := fun _ => [] }, .none)
+  | .len => (c, .len c.len)
+
+def SLru.run (stores : Bool) (sumOf : Nat → Nat) (c : SLru) : List LOp → SLru × List LRet
+  | [] => (c, [])
+  | op :: ops =>
+    let (c1, r) := c.step stores sumOf op
+    let (c2, rs) := SLru.run stores sumOf c1 ops
+    (c2, r :: rs)
+
+/-- the specification: the value last added under a key and not flushed since -/
+def lspecStep (spec : Nat → Option Nat) : LOp → (Nat → Option Nat)
+  | .add k v => fun x => if x = k then some v else spec x
+  | .flush => fun _ => none
+  | _ => spec
+
+def lspecRun (spec : Nat → Option Nat) : List LOp → (Nat → Option Nat)
+  | [] => spec
+  | op :: ops => lspecRun (lspecStep spec op) ops
+
 end Model.C11
